@@ -85,19 +85,22 @@ def read_groundwater_table(
 
                 # Linear interpolation between dates
 
-                # create daily depths for each simulation day
-                # fill unspecified days with NaN
-                z_gw = pd.Series(
-                    np.nan * np.ones(len(ClockStruct.time_span)), index=ClockStruct.time_span
+                # observed depths by date (observations may lie outside the
+                # simulation period)
+                obs = pd.Series(
+                    df["Depth(mm)"].values.astype(float), index=pd.DatetimeIndex(df.Date)
+                ).sort_index()
+
+                # Interpolate daily groundwater depths linearly in time between the
+                # observations; before the first / after the last observation the
+                # nearest observed depth is held
+                z_gw = (
+                    obs.reindex(obs.index.union(ClockStruct.time_span))
+                    .interpolate(method="time")
+                    .ffill()
+                    .bfill()
+                    .reindex(ClockStruct.time_span)
                 )
-
-                for row in range(len(df)):
-                    date = df.Date.iloc[row]
-                    depth = df["Depth(mm)"].iloc[row]
-                    z_gw.loc[date] = depth
-
-                # Interpolate daily groundwater depths
-                z_gw = z_gw.interpolate()
 
         # assign values to Paramstruct object
         ParamStruct.z_gw = z_gw.values
